@@ -105,11 +105,17 @@ Proof.
   destruct E as [t [t' [_ [_ ->]]]]. unfold uses_of in *. cbn [flat_map]. now rewrite IH.
 Qed.
 
+Lemma Forall2_In_l {A B} (R : A -> B -> Prop) l1 l2 x : Forall2 R l1 l2 -> In x l1 -> exists y, In y l2 /\ R x y.
+Proof.
+  induction 1 as [|a b r r' Rab _ IH]; cbn; [tauto|]. intros [<-|H]; [eauto|].
+  destruct (IH H) as [y [Hy Ry]]. eauto.
+Qed.
+
 Lemma prelim_procs_complete D ps0 as0 ps assumed :
   Forall2 (elab_proc D) ps0 ps -> Forall2 (elab_name D) as0 assumed -> procs_prelim_ok D ps assumed ->
   prelim_procs D ps0 as0 = TOk (ps, assumed).
 Proof.
-  intros EP EN [PS NA TA NP DJ U1 U2 U3 AC].
+  intros EP EN [PS NA TA NP DJ U1 U2 U3 AC PN].
   pose proof (elab_names_idents _ _ _ EN) as EI.
   pose proof (elab_procs_providers _ _ _ EP) as EPr.
   destruct (amn_complete _ _ _ EN) as [HT AN].
@@ -144,6 +150,9 @@ Proof.
       + rewrite (alookup_const_notin _ _ J) in Ea. discriminate. }
   assert (G6 : procs_acyclic ps0 = true).
   { rewrite procs_acyclic_eq, <- (deps_acyclic_shape _ _ (elab_procs_shape _ _ _ EP)). exact AC. }
+  assert (G7 : providers_not_self ps0 = true).
+  { apply providers_not_self_spec. intros p0 n Hp0 Hn.
+    destruct (Forall2_In_l _ _ _ _ (elab_procs_shape _ _ _ EP) Hp0) as [p1 [Hp1 [_ Ep]]]. rewrite <- Ep in Hn. eapply PN; eauto. }
   fold has_ty. unfold all_providers in E. rwc. reflexivity.
 Qed.
 
@@ -186,7 +195,7 @@ Qed.
 
 Theorem tc_program_complete p : ProgOK teq p -> exists p', tc_program p = TOk p'.
 Proof.
-  intros [pe [[ET [EF [EP EA]]] [SD NF [Sg [SO [FO PO]]] NA TA NP DJ U1 U2 U3 AC]]].
+  intros [pe [[ET [EF [EP EA]]] [SD NF [Sg [SO [FO PO]]] NA TA NP DJ U1 U2 U3 AC PN]]].
   rewrite ET in *. pose proof (sanity_wf_env _ SD) as HD.
   assert (FS : Forall (fun_sig_ok (p_types p)) (p_funs pe)).
   { rewrite Forall_forall in *. intros f Hf. eapply FunOK_sig; eauto. }
